@@ -140,26 +140,16 @@ Definition ks_crash (s : kst) (back : nat) : kst :=
 
 Definition mem_N (x : N) (l : list N) : bool := existsb (N.eqb x) l.
 
-(* `seen := make(map[bit256.Key]struct{})` (keystore.go:292,472 and
-   resettable_keystore.go:465): bit256.Key is struct{ b *[32]byte }, so the map
-   is keyed by the POINTER; keyspace.MhToBit256 allocates a fresh array for
-   every call, hence `seen[k]` never hits and duplicates inside one call are
-   not removed.  [seen_dedups] records that; the scans below are written
-   against [seen_hit] so that repairing the code is the one-line change
-   [seen_dedups := true]. *)
-Definition seen_dedups : bool := false.
-Definition seen_hit (dedup : bool) (x : N) (seen : list N) : bool := dedup && mem_N x seen.
-
-(* the loop of put: dedup on the 256-bit key, Has on the datastore (not on the
+(* the loop of put: dedup on the multihash bytes (`seen`, keyed by string(h)), Has on the datastore (not on the
    batch), batch.Put of the absent ones.  None = a Has call failed. *)
-Fixpoint put_scan (dd : bool) (pb : nat) (st : sstore) (f : fault) (keys : list mhk) (seen : list N) (nhas : nat)
+Fixpoint put_scan (pb : nat) (st : sstore) (f : fault) (keys : list mhk) (seen : list N) (nhas : nat)
   : option (batch * list mhk) :=
   match keys with
   | [] => Some ([], [])
   | k :: rest =>
-      if seen_hit dd (mid k) seen then put_scan dd pb st f rest seen nhas
+      if mem_N (mid k) seen then put_scan pb st f rest seen nhas
       else if fails_has f nhas then None
-      else match put_scan dd pb st f rest (mid k :: seen) (S nhas) with
+      else match put_scan pb st f rest (mid k :: seen) (S nhas) with
            | None => None
            | Some (b, nw) =>
                if st_has (dkey pb k) st then Some (b, nw)
@@ -168,14 +158,14 @@ Fixpoint put_scan (dd : bool) (pb : nat) (st : sstore) (f : fault) (keys : list 
   end.
 
 (* the loop of delete: removedCount is the length of the batch *)
-Fixpoint del_scan (dd : bool) (pb : nat) (st : sstore) (f : fault) (keys : list mhk) (seen : list N) (nhas : nat)
+Fixpoint del_scan (pb : nat) (st : sstore) (f : fault) (keys : list mhk) (seen : list N) (nhas : nat)
   : option batch :=
   match keys with
   | [] => Some []
   | k :: rest =>
-      if seen_hit dd (mid k) seen then del_scan dd pb st f rest seen nhas
+      if mem_N (mid k) seen then del_scan pb st f rest seen nhas
       else if fails_has f nhas then None
-      else match del_scan dd pb st f rest (mid k :: seen) (S nhas) with
+      else match del_scan pb st f rest (mid k :: seen) (S nhas) with
            | None => None
            | Some b => if st_has (dkey pb k) st then Some (WDel (dkey pb k) :: b) else Some b
            end
@@ -190,7 +180,7 @@ Definition ks_put (pb : nat) (s : kst) (keys : list mhk) (f : fault) : kst * opt
   match keys with
   | [] => (s, Some [])
   | _ =>
-      match put_scan seen_dedups pb (cur s) f keys [] 0 with
+      match put_scan pb (cur s) f keys [] 0 with
       | None => (with_size s (refresh_size (cur s)), None)
       | Some (b, nw) =>
           if fails_commit f 0 then (with_size s (refresh_size (cur s)), None)
@@ -205,7 +195,7 @@ Definition ks_delete (pb : nat) (s : kst) (keys : list mhk) (f : fault) : kst * 
   match keys with
   | [] => (s, true)
   | _ =>
-      match del_scan seen_dedups pb (cur s) f keys [] 0 with
+      match del_scan pb (cur s) f keys [] 0 with
       | None => (with_size s (refresh_size (cur s)), false)
       | Some b =>
           if fails_commit f 0 then (with_size s (refresh_size (cur s)), false)
